@@ -540,7 +540,12 @@ pub fn render_schema_file(m: &SchemaModel, file: usize) -> String {
                 out.push_str(&render_dir(&t.directive, m));
             }
             match t.kind {
-                Kind::Scalar => out.push('\n'),
+                Kind::Scalar => {
+                    if m.ts_type_directives && !is_ext {
+                        out.push_str(" @nitrogql_ts_type(resolverInput: \"string\", resolverOutput: \"Date | string\", operationInput: \"string\", operationOutput: \"string\")");
+                    }
+                    out.push('\n')
+                }
                 Kind::Union => {
                     out.push_str(" = ");
                     out.push_str(&t.members[lo..hi].join(" | "));
